@@ -6,7 +6,7 @@ from props import filegen as FG
 from props import dlgen as DG
 
 PROP = 'C05'
-MODULES = ['ZckModel.Props.C05']
+MODULES = ['ZckModel.Props.C05', 'ZckModel.Props.C05Frag']
 ASSUMPTIONS = [
     "regcomp/regexec (glibc) are an oracle: the model is given libc's logged answers; theorems quantify over every oracle",
     "the target is a regular file written with lseek+write; a transport stops at the first callback that refuses its data "
